@@ -82,6 +82,9 @@ def run(ctx, rep):
             if name in ('collect', 'collect_vec', 'from_iter') and sorted_before_use(prog, b, c):
                 rep.ok('D1', key, 'collected into a Vec that is sorted before any other use (MIR: the sort dominates every other use)', site)
                 continue
+            if name == 'next' and loop_collects_then_sorts(ctx, c):
+                rep.ok('D1', key, 'the loop only pushes into a local Vec that is sorted (plain sort) before any other use', site)
+                continue
             ent = lookup(table, root['id'], name, norm(c['snippet']))
             if ent is None:
                 rep.fail('D1', key, f"unclassified consumer of hash-iteration order: `{norm(c['snippet'])[:110]}` ({c['callee'][:60]}) in {root['id']} — iteration order of a HashMap/HashSet differs between processes (random seed); unless the result is order-insensitive it reaches the output", site)
@@ -190,6 +193,49 @@ def path_keyed(prog, region, sortcall):
         if re.search(r'\bPath(Buf)?\b', ret):
             return True
     return False
+
+
+def loop_collects_then_sorts(ctx, c):
+    """The loop spelling of `set.iter().filter(..).collect::<Vec<_>>()` followed by `sort()`: a `for` over the hash collection
+    whose body does nothing but push (possibly under conditions) into one local Vec, and the first thing that happens to that
+    Vec after the loop is a plain `sort()` / `sort_unstable()` — the iteration order cannot reach anything else.  (syntax facts)"""
+    rel = c['file']
+    fs = [f for f in ctx.astq['functions'] if rel.endswith(f['file']) and f['line'] <= c['line'] <= f.get('end_line', 10 ** 9)]
+    if not fs:
+        return False
+    f = min(fs, key=lambda g: g.get('end_line', 10 ** 9) - g['line'])
+    loops = [l for l in f['loops'] if l.get('kind') == 'for' and l.get('line') == c['line']]
+    if len(loops) != 1:
+        return False
+    lp = loops[0]
+
+    def in_loop(x):
+        return any(fr.get('k') == 'for' and fr.get('line') == lp['line'] for fr in x.get('guard', []))
+    body = [x for x in f['calls'] if in_loop(x)]
+    targets = set()
+    for x in body:
+        if x.get('f') in ('push', 'insert', 'extend') and x.get('recv') is not None:
+            r = x['recv']
+            while isinstance(r, dict) and r.get('k') in ('ref', 'deref', 'paren'):
+                r = r.get('v')
+            nm = r.get('name') if isinstance(r, dict) and (r.get('k') in ('var', 'vecof')) else None
+            if not nm:
+                return False
+            targets.add(nm)
+        elif x.get('f') in ('eq', 'ne', 'clone', 'as_str', 'as_ref', 'to_string', 'borrow', 'deref'):
+            continue
+        else:
+            return False
+    if len(targets) != 1 or [s_ for s_ in f['sites'] if in_loop(s_)] or [a for a in f['assigns'] if in_loop(a)] or [r for r in f.get('returns', []) if in_loop(r)]:
+        return False
+    v = targets.pop()
+    def on_v(x):
+        r = x.get('recv')
+        if isinstance(r, dict) and r.get('k') in ('ref', 'deref'):
+            r = r.get('v')
+        return (isinstance(r, dict) and r.get('name') == v) or str(x.get('recv_text') or '').replace(' ', '').lstrip('&').replace('mut', '') == v
+    later = sorted([x for x in f['calls'] if not in_loop(x) and x.get('line', 0) > lp['line'] and x.get('recv') is not None and on_v(x)], key=lambda x: x.get('line', 0))
+    return bool(later) and later[0].get('f') in ('sort', 'sort_unstable') and not later[0].get('args')
 
 
 def sorted_before_use(prog, b, c):
